@@ -82,7 +82,7 @@ fn main() {
         "ttl_ops" => ttl_ops::search(&pid, &oid, seed),
         "err_frame" => executor::search_err(&pid, &oid, seed),
         "conn" | "batch_collect" => conn::search(&pid, &oid, seed),
-        "conn_txn" => conn::search_txn(&pid, &oid, seed),
+        "conn_txn" | "resp_equal" => conn::search_txn(&pid, &oid, seed),
         "shard_actor" => shard_actor::search(&pid, &oid, seed),
         "sync_keys" => sync_keys::search(&pid, &oid, seed),
         "sds_codec" => sds_codec::search(&pid, &oid, seed),
